@@ -126,6 +126,8 @@ def plan(tier, seed):
         out.append({'kind': 'empty-arbiter', 'seed': seed, 'idx': i})
     for i in range(12 if tier == 'quick' else 120):
         out.append({'kind': 'failed-stop', 'seed': seed, 'idx': i})
+    for i in range(24 if tier == 'quick' else 240):
+        out.append({'kind': 'on-demand', 'seed': seed, 'idx': i})
     return out
 
 
@@ -242,6 +244,9 @@ def run_case(spec):
         return res
     if spec.get('kind') == 'failed-stop':
         failed_stop(spec, res)
+        return res
+    if spec.get('kind') == 'on-demand':
+        on_demand(spec, res)
         return res
     if 'B' in spec:                     # concrete (replay)
         h = spec['h']
@@ -476,6 +481,88 @@ def empty_arbiter(spec, res):
     finally:
         w.close()
     res.sample = {'case': 'periodic check of an arbiter without watchers', 'watchers_removed_first': n0}
+
+
+def on_demand(spec, res):
+    """the periodic check is one of the serialized operations, also when what it does is start an on-demand watcher
+    because somebody connected to its socket: a request arriving while that start is under way is refused, or the
+    start is over"""
+    import socket
+    from circus.sockets import CircusSocket
+    rnd = rng_for(spec['seed'], 'C10-on-demand', spec['idx'])
+    np_ = rnd.choice([2, 3])
+    wu = rnd.choice([0.3, 0.5, 1.0])
+    h = {'kill_latency': 0.0,
+         'watchers': [{'name': 'od', 'numprocesses': np_, 'warmup_delay': wu, 'graceful_timeout': 0.2, 'on_demand': True,
+                       'use_sockets': True},
+                      {'name': 'p', 'numprocesses': 1, 'graceful_timeout': 0.1}]}
+    bname, (bcmd, bprops) = [
+        ('incr-od', ('incr', {'name': 'od', 'nb': 2, 'waiting': True})),
+        ('stop-od', ('stop', {'name': 'od', 'waiting': True})),
+        ('restart-od', ('restart', {'name': 'od', 'waiting': True})),
+        ('set-od', ('set', {'name': 'od', 'options': {'numprocesses': 1}, 'waiting': True})),
+        ('incr-p', ('incr', {'name': 'p', 'nb': 1, 'waiting': True})),
+        ('reload-od', ('reload', {'name': 'od', 'waiting': True})),
+        ('decr-od', ('decr', {'name': 'od', 'nb': 1, 'waiting': True})),
+        ('rm-od', ('rm', {'name': 'od', 'waiting': True}))][spec['idx'] % 8]
+    delay = rnd.choice([0.0, 0.1, wu * 0.5, wu * 1.2, wu * (np_ - 1) - 0.05])
+    w = simhist.new_world(h)
+    w.nest = {'n': 0, 'max': 0, 'entered': 0, 'overlaps': [], 'open': [], 'tokens': [], 'work': [], 'orphans': []}
+    nv = len(res.viol)
+    socks = []
+
+    @gen.coroutine
+    def go():
+        ws = [simhist.make_watcher(w, c) for c in h['watchers']]
+        lsock = CircusSocket('od', host='127.0.0.1', port=0)
+        socks.append(lsock)
+        arb = w.make_arbiter(ws, sockets=[lsock])
+        yield arb.start()
+        yield w.settle(30)
+        yield w.check()
+        yield w.settle(5)
+        if w.kernel.live('w_od'):
+            res.inconclusive.append('on-demand watcher started without a connection (C02 owns)')
+            return
+        c = socket.create_connection(('127.0.0.1', lsock.getsockname()[1]))
+        socks.append(c)
+        chk = w.check()            # not waited for: the request below arrives while it is (or should be) in progress
+        yield gen.sleep(0)
+        if delay:
+            yield w.advance(delay)
+        st0 = simhist.reported_status(w, 'od')
+        live0 = len(w.kernel.live('w_od'))
+        slot = w.arb._exclusive_running_command
+        rb = yield w.call(bcmd, **dict(bprops))
+        yield chk
+        yield w.settle(60)
+        res.obs['requests_during_an_on_demand_start'] += 1
+        res.obs['on_demand_start:%s' % ('inside-the-slot' if slot else 'slot-free-while-%s' % st0)] += 1
+        accepted = (rb or {}).get('status') == 'ok'
+        if accepted and st0 == 'starting' and live0 < np_ and slot is None:
+            end = (simhist.reported_status(w, 'od'), simhist.reported_numprocesses(w, 'od'), len(w.kernel.live('w_od')))
+            res.violation('C10/second-operation-accepted-during-an-on-demand-start:' + bname,
+                          'the periodic check started the on-demand watcher od (%d of %d workers up, status starting) and '
+                          'gave the slot back; %s %s sent %.2fs later was accepted and ran beside the start; od ends as '
+                          'status=%s numprocesses=%s live=%d; monitor: %s'
+                          % (live0, np_, bcmd, bprops, delay, end[0], end[1], end[2], w.nest['orphans'][:1]))
+        res.nontrivial(repr(('on-demand', bname, st0, bool(slot), accepted)))
+        pr = yield w.call('incr', name='p', nb=0, waiting=True)
+        res.obs['wedge_probes'] += 1
+        if pr is None or (pr.get('status') == 'error' and 'already running' in str(pr.get('reason'))):
+            res.violation('C10/wedged-after-an-on-demand-start', 'probe answered %s' % str(pr)[:120])
+    try:
+        w.run(go)
+        for v in res.viol[nv:]:
+            v['spec'] = dict(spec)
+    finally:
+        for s_ in socks:
+            try:
+                s_.close()
+            except Exception:
+                pass
+        w.close()
+    res.sample = res.sample or {'case': 'connection to an on-demand watcher, periodic check, then %s %.2fs later' % (bname, delay)}
 
 
 def failed_stop(spec, res):
